@@ -45,9 +45,23 @@ def log(msg):
     print(msg, flush=True)
 
 
+def modfile_args(workdir):
+    """VERIF_REPO=<dir> points the checks at another copy of kvql (a scratch
+    worktree with a candidate change) without touching /repo or go.mod."""
+    alt = os.environ.get("VERIF_REPO")
+    if not alt or os.path.abspath(alt) == REPO:
+        return []
+    mf = os.path.join(workdir, "alt.go.mod")
+    if not os.path.exists(mf):
+        text = open(os.path.join(ROOT, "go.mod")).read().replace("=> /repo", "=> " + os.path.abspath(alt))
+        open(mf, "w").write(text)
+        shutil.copy(os.path.join(ROOT, "go.sum"), os.path.join(workdir, "alt.go.sum"))
+    return ["-modfile=" + mf]
+
+
 def build(workdir, race):
     out = os.path.join(workdir, "checks.race.test" if race else "checks.test")
-    cmd = ["go", "test", "-c", "-o", out]
+    cmd = ["go", "test", "-c", "-o", out] + modfile_args(workdir)
     if race:
         cmd.append("-race")
     cmd.append("./checks")
@@ -377,7 +391,7 @@ def check_in(prop, tier, spec, seed, workdir, t0):
         e.pop("VERIF_JOURNAL", None)
         crashdir = os.path.join(ROOT, "checks", "testdata", "fuzz", name)
         shutil.rmtree(crashdir, ignore_errors=True)
-        cmd = ["go", "test", "./checks", "-run", "^$", "-fuzz", "^%s$" % name, "-fuzztime", "%ds" % cfg["fuzztime"],
+        cmd = ["go", "test"] + modfile_args(workdir) + ["./checks", "-run", "^$", "-fuzz", "^%s$" % name, "-fuzztime", "%ds" % cfg["fuzztime"],
                "-parallel", str(MAXPROCS), "-test.fuzzcachedir", os.path.join(workdir, "fuzzcache")]
         try:
             p = subprocess.run(cmd, cwd=ROOT, env=e, stdout=subprocess.PIPE, stderr=subprocess.STDOUT, text=True,
